@@ -536,7 +536,15 @@ def impl(c):
         return _wrap(guarded(P.has_condorcet, inst, weak_condorcet=bool(pl[1])), lambda v: 1 if v is True else (0 if v is False else {"bad": repr(v)}))
     m = len(pl[0])
     res = {}
-    mk = lambda q: make(q, c["tags"])
+    salt = common.salt_of(pl)
+
+    def mk(q):
+        inst = make(q, c["tags"])
+        if salt % 3 == 0:   # call / in-place edit / call: the same object held a decoy profile of the same shape first
+            inst, _ = common.prime_stale(inst, [P.pairwise_scores, P.copeland_scores, P.has_condorcet,
+                                                lambda i: P.has_condorcet(i, weak_condorcet=True), P.borda_scores,
+                                                order_to_pwg], salt // 3)
+        return inst
     res["pairwise"] = _wrap(guarded(P.pairwise_scores, mk(pl)), _table)
     res["copeland"] = _wrap(guarded(P.copeland_scores, mk(pl)), _table)
     bl = lambda v: 1 if v is True else (0 if v is False else {"bad": repr(v)})
